@@ -63,6 +63,81 @@ def run(tier, seed, replay):
         if not a.startswith("ok "):
             oracle_fail.append(dict(request=l, implementation=a, why="on a long-lived connection messages of one receiver frame were delivered out of sending order (or lost/duplicated)"))
     rep.cov["long_runs"] = long_cases
+    # the whole backend: a real server app and 1-3 real client apps wired with RepliconExampleBackendPlugins over loopback TCP,
+    # events piling up in both directions on an ordered and an unordered channel; one client may be sent a message too large
+    # for the framing (its connection is dropped): the OTHER clients must still get everything exactly once and in order
+    nback = 14 if tier == "quick" else 150
+    back_lines, back_meta = [], []
+    for _ in range(nback):
+        ncl = rng.choice([1, 2, 2, 3])
+        rounds, sent = [], []          # sent: (round, recipient, kind, seq)
+        seq = 0
+        dead = set()
+        victim = rng.randrange(ncl) if (ncl > 1 and rng.random() < 0.4) else None
+        nr = rng.randrange(2, 5)
+        victim_round = rng.randrange(nr) if victim is not None else None
+        for r in range(nr):
+            items = []                 # (text, recipients, kind, size)
+            for _ in range(rng.choice([0, 1, 3, 6, 12, 30])):
+                size = rng.choice([0, 1, 10, 100, 700, 1100])
+                k = rng.randrange(2)
+                d = rng.random()
+                if d < 0.35:
+                    items.append(("b:%d:%d" % (k, size), ["R%d" % c for c in range(ncl)], k, size))
+                elif d < 0.65:
+                    c = rng.randrange(ncl)
+                    items.append(("s%d:%d:%d" % (c, k, size), ["R%d" % c], k, size))
+                else:
+                    c = rng.randrange(ncl)
+                    items.append(("c%d:%d:%d" % (c, k, size), ["RS:%d" % c], k, size))
+            if r == victim_round:
+                items.insert(rng.randrange(len(items) + 1), ("s%d:0:70000" % victim, ["R%d" % victim], 0, 70000))     # does not fit the 16-bit length prefix
+            for text, recs, k, size in items:      # the harness numbers the items in script order
+                seq += 1
+                for rec in recs:
+                    sent.append((r, rec, k, seq, size))
+            items = [it[0] for it in items]
+            rounds.append(",".join(items) or "-")
+        rounds += ["-", "-", "-", "-"]
+        back_lines.append("backend %d %s" % (ncl, "/".join(rounds)))
+        back_meta.append((ncl, sent, victim, victim_round))
+    back_out = run_lines(harness_bin("kernels"), back_lines, shards=min(8, len(back_lines)))
+    for l, o, (ncl, sent, victim, vround) in zip(back_lines, back_out, back_meta):
+        if o in ("setup-failed", "PANIC") or not o:
+            oracle_fail.append(dict(request=l[:600], implementation=o, why="the example backend did not come up or panicked"))
+            continue
+        got = {}
+        for r, part in enumerate(o.split("/")):
+            for rec in part.split(";"):
+                name, items = rec.split("=")
+                if items == "-":
+                    continue
+                for it in items.split(","):
+                    if name == "RS":
+                        who, it = it.split(":")
+                        key = "RS:" + who
+                    else:
+                        key = name
+                    k, sq, size, okf = it.split(".")
+                    got.setdefault(key, []).append((int(k), int(sq), int(size), okf == "1"))
+        for key in sorted(set([x[1] for x in sent]) | set(got)):
+            # a client whose connection was dropped by an oversized message (and what it sends) is outside the promise
+            if victim is not None and key in ("R%d" % victim, "RS:%d" % victim):
+                continue
+            want = [(k, sq, size) for (r, rec, k, sq, size) in sent if rec == key]
+            have = got.get(key, [])
+            if any(not okf for (_, _, _, okf) in have):
+                oracle_fail.append(dict(request=l[:600], implementation=o[:600], why="a payload arrived altered at %s" % key))
+                break
+            if sorted((k, sq, size) for (k, sq, size, _) in have) != sorted(want):
+                oracle_fail.append(dict(request=l[:600], implementation=o[:600], why="recipient %s: messages lost or duplicated (sent %d, arrived %d)" % (key, len(want), len(have))))
+                break
+            ordered = [sq for (k, sq, _, _) in have if k == 0]
+            if ordered != sorted(ordered):
+                oracle_fail.append(dict(request=l[:600], implementation=o[:600], why="recipient %s: ordered channel out of sending order %r" % (key, ordered[:20])))
+                break
+    rep.cov["backend_runs"] = dict(cases=nback, rule="real server + 1-3 client apps over loopback TCP through the backend plugins, up to 30 events per frame and direction, one oversized message to one client in some cases")
+    extra_evals = nback
     for l, a, b, e in zip(lines, impl, model, expect):
         if a != b:
             diverged.append(dict(request=l[:300], implementation=a[:300], model=b[:300]))
@@ -70,7 +145,7 @@ def run(tier, seed, replay):
             oracle_fail.append(dict(request=l[:2000], implementation=a[:2000], why="messages were lost, duplicated, reordered or altered between sender and receiver"))
         if l.count(",") >= 8:
             nontriv.add(l)
-    rep.cov["evaluations"] = len(lines)
+    rep.cov["evaluations"] = len(lines) + extra_evals
     rep.cov["traces_validated_against_impl"] = len(lines)
     rep.cov["distinct_nontrivial"] = len(nontriv)
     rep.cov["rule"] = ("conditioner without config: 1..5 receiver frames, 0..64 messages inserted per frame with one timestamp, then drained; tcp: 1..3 rounds of 0..48 messages "
